@@ -77,10 +77,11 @@ TClaimSweep == IsEvent("claimsweep") /\ ClaimSweep /\ LoggedP(Ev.s)
 TPause   == IsEvent("pause") /\ PauseWorkflow /\ LoggedP(Ev.s)
 TUnpause == IsEvent("unpause") /\ Unpause /\ LoggedP(Ev.s)
 TRestart == IsEvent("sendrestart") /\ SendRestart(Ev.stage) /\ LoggedP(Ev.s)
+TRegion  == IsEvent("sendregion") /\ SendCancelRegion(Ev.region) /\ LoggedP(Ev.s)
 TEarly   == IsEvent("early") /\ EarlyStart(Ev.stage) /\ LoggedP(Ev.s)
 
 TraceNext == TCommit \/ TDedup \/ TTrusted \/ TBloomReset \/ TExec \/ THRet \/ THRaise \/ THFail \/ TNoAck \/ TWarp \/ TExpire
-             \/ TSweep \/ TDlq \/ TCrash \/ TCancel \/ TEarly \/ TSignal \/ TClaimSweep \/ TPause \/ TUnpause \/ TRestart
+             \/ TSweep \/ TDlq \/ TCrash \/ TCancel \/ TEarly \/ TSignal \/ TClaimSweep \/ TPause \/ TUnpause \/ TRestart \/ TRegion
 
 TraceSpec == TraceInit /\ [][TraceNext]_tvars
 
